@@ -227,7 +227,7 @@ def rule_fixpoints(ctx, rep, config="c-lib"):
     rep.rule("R10", "fixpoint loops of the grammar analysis: every `changed' flag that is reset at the top of a do-while body is part of the loop condition, and an update "
                     "`flag |= old ^ new' / `flag |= f(x)' reads the old value of the field before the same iteration stores the new one")
     p = ctx.prog(config)
-    FUNCS = ["set_empty_access_derives", "set_loop_p", "create_first_follow_sets"]
+    FUNCS = ["set_empty_access_derives", "set_loop_p", "create_first_follow_sets", "expand_new_start_set"]
     n = 0
     for fn in FUNCS:
         f = p.fn(fn)
